@@ -2,12 +2,12 @@ SPECIFICATION Spec
 CONSTANTS
  Tasks <- T2
  Deps <- D2
- Faulty <- NoFaulty
+ Faulty <- Fb
  Roots <- R2
  Mach <- M3
  MaxKills = 1
  MaxDiscards = 1
  MaxLost = 2
- Variant = "restore"
+ Variant = "atomic"
 INVARIANTS TypeOK NoOrphanRunning NoOrphanWaiting OkIsOwned OwnedIsStored
 CHECK_DEADLOCK FALSE
